@@ -397,7 +397,7 @@ func runC20(c *Ctx) {
 	}
 
 	// ================= R3 =================
-	c.floor("C20.R3", 2)
+	c.floor("C20.R3", 3)
 	if appendStore != nil {
 		var entry *ssa.Alloc
 		// the appended element: new SymbolRedirect
@@ -405,6 +405,37 @@ func runC20(c *Ctx) {
 			if al, ok := in.(*ssa.Alloc); ok && typeIs(al.Type(), m.lookupType("", "SymbolRedirect")) {
 				entry = al
 			}
+		}
+		// one entry per annotation: the record appended is made for this annotation
+		// (allocated inside the loop over the comment lines), not one record that
+		// every annotation of the function overwrites
+		{
+			bad := ""
+			ha, _ := loopOf(appendStore.Block())
+			switch {
+			case entry == nil:
+				bad = "no SymbolRedirect is allocated for the appended entry"
+			case ha == nil:
+				bad = "the append is not inside the loop over the doc-comment lines"
+			default:
+				he, _ := loopOf(entry.Block())
+				if he != ha {
+					bad = "the record appended is allocated outside the loop over the annotations: all annotations of a function share (and overwrite) one entry"
+				}
+				// and it is that record that is appended
+				okVal := false
+				if call, ok := appendStore.Val.(*ssa.Call); ok {
+					for _, a := range varargValues(call.Common().Args[len(call.Common().Args)-1]) {
+						if a == ssa.Value(entry) {
+							okVal = true
+						}
+					}
+				}
+				if !okVal && bad == "" {
+					bad = "the value appended is not the record built for this annotation"
+				}
+			}
+			c.check(bad == "", "C20.R3", "fresh-entry "+m.fnName(find), "a new SymbolRedirect per annotation is appended", bad, m.pos(appendStore.Pos()))
 		}
 		fieldVal := func(fld *types.Var) ssa.Value {
 			if entry == nil {
